@@ -82,7 +82,7 @@ def run_case(desc):
 
 class Balance(Facet):
     name = "balance"
-    examples = {"quick": 12000, "thorough": 200000}
+    examples = {"quick": 12000, "thorough": 600000}
     shards = {"quick": 16, "thorough": 16}
 
     def strategy(self, tier):
